@@ -867,6 +867,7 @@ def run(rep):
                     base_tokens.append(read_tokens(d["toks"]))
     # 4. malformed token lists
     malformed_cases(rep, base_tokens, 150000 if thorough else 12000)
+    vlib.huge_token_probe(rep, ("parse",))
 
 
 def replay(r):
